@@ -344,6 +344,10 @@ func recordBatch(rec *recorder, rng *rand.Rand, trials int, repo string) int {
 					samples[i][in] = d
 				}
 			}
+			if name == "softmax_inner_axis" && n > 1 {
+				// one sample with a logit far above everything else in the batch: each sample's probabilities are its own business
+				samples[rng.Intn(n)][sm.inNames[0]][rng.Intn(3)*2+rng.Intn(2)] = 3e8
+			}
 			emitRun := func(ev string, extra map[string]interface{}, ss []map[string][]float32) bool {
 				rows, err := sm.run(ss)
 				e := map[string]interface{}{"ev": ev, "model": name, "n": len(ss), "outs": sm.outNames}
